@@ -1,4 +1,4 @@
-import Tmv.Lemmas.LightConfirm
+import Tmv.Lemmas.LightProv
 /-! C09 — the light client only trusts headers reachable by valid verification steps; a header is
 accepted by the forward paths only if some witness returned the identical header; a backed
 conflicting header yields the attack error with evidence. Theorems about the model
@@ -75,6 +75,32 @@ theorem new_client_stores_root {cfg : Config} {primary : Prov} {witnesses : List
     {sched : List Prov → List Nat} {period height : Int} {root : Hash} {c0 : Client}
     (hnew : newClient cfg primary witnesses sched period height root = .ok c0) :
     ∀ b ∈ c0.store.blocks, Reach cfg root b := (newClient_inv hnew).2.1
+
+theorem runOp_cinv {c : Client} (h : CInv c) (op : Op) : CInv (runOp c op) := by
+  have h' : ∀ s, CInv { c with sched := s } := fun s => ⟨⟨h.1.1, h.1.2⟩, h.2.1, h.2.2⟩
+  cases op with
+  | verify ht now s => exact verifyLightBlockAtHeight_cinv (h' s) (Prod.ext rfl rfl)
+  | update now s => exact update_cinv (h' s) (Prod.ext rfl rfl)
+
+/-- **stored_valsets_committed.** If the providers obey their contract (every light block they hand
+over carries the validator set its header commits to — what `LightBlock.ValidateBasic` in both
+providers of /repo enforces), then after `NewClient` and any sequence of calls every trusted block
+(store and cached latest) carries the validator set its header commits to — also the blocks stored
+by backwards verification and after primary replacement, where the client itself does not check it.
+Hence the "previous trusted set" of every later `ValidStep` from a stored block is the set named by
+that trusted header. -/
+theorem stored_valsets_committed {cfg : Config} {primary : Prov} {witnesses : List Prov}
+    {sched : List Prov → List Nat} {period height : Int} {root : Hash} {c0 : Client}
+    (hp : ProvOK primary) (hw : ∀ w ∈ witnesses, ProvOK w)
+    (hnew : newClient cfg primary witnesses sched period height root = .ok c0) (ops : List Op) :
+    (∀ b ∈ (runOps c0 ops).store.blocks, Committed b) ∧
+    (∀ l, (runOps c0 ops).latest = some l → Committed l) := by
+  have : ∀ (ops : List Op) (c : Client), CInv c → CInv (runOps c ops) := by
+    intro ops
+    induction ops with
+    | nil => intro c h; exact h
+    | cons op rest ih => intro c h; exact ih _ (runOp_cinv h op)
+  exact (this ops c0 (newClient_cinv hp hw hnew)).2
 
 /-- one link of a trust chain: a valid forward step at some local time, a backward hash link, or
 re-labelling by header hash -/
@@ -281,6 +307,19 @@ end Ex
 open Ex
 
 
+
+/-- the provider contract of `stored_valsets_committed` is satisfiable -/
+example : ProvOK (honest 1) := by
+  intro n ht lb h
+  simp only [honest, table] at h
+  split at h
+  · rename_i b hb
+    injection h with h
+    subst h
+    have := List.mem_of_find?_eq_some hb
+    simp at this
+    rcases this with rfl | rfl | rfl <;> rfl
+  · cases h
 
 /-- `ValidStep` is satisfiable: an adjacent and a skipping step (both accepted by `verify`) -/
 example : ValidStep cfg 25 b1 b2 ∧ ValidStep cfg 35 b1 b3 :=
